@@ -2,6 +2,7 @@
 C02 for the plain / CRC family: the independent ROM model (Spec/MbiRom.lean) accepts what the model exports, and the
 CRC covers the image with exactly the CRC word excluded.
 -/
+import SpsdkVerif.Proofs.MbiRomFlags
 import SpsdkVerif.Proofs.MbiPlain
 import SpsdkVerif.Proofs.MbiRomDefs
 
@@ -42,10 +43,9 @@ theorem romcrc_facts (hc : PlainCls c) (hk : PlainCfg c cfg) (K : Nat) (hK : K <
     have h1 := h.1
     unfold flagsOf
     rw [hk.hks]
-    exact h1
+    exact (rom_type _).trans h1
   · have h := (plain_flag_fields hc hk).1
-    show getTzType (flagsOf c cfg) ≤ 2
-    rw [h]
+    rw [rom_tz, h]
     split
     · cases cfg.tz <;> simp [TzCfg.tag, tzEnabled, tzCustom, tzDisabled]
     · omega
